@@ -1009,7 +1009,8 @@ class ContainsCriterion(Criterion):
 
     @builder
     def negate(self) -> "ContainsCriterion":
-        self._is_negated = True
+        # negating NOT IN gives IN back (the flag used to be set, not toggled: a double negation was lost)
+        self._is_negated = not self._is_negated
 
 
 class ExistsCriterion(Criterion):
@@ -1026,7 +1027,7 @@ class ExistsCriterion(Criterion):
 
     @builder
     def negate(self):
-        self._is_negated = True
+        self._is_negated = not self._is_negated
 
     @builder
     def replace_table(self, current_table: Optional["Table"], new_table: Optional["Table"]) -> "ExistsCriterion":
